@@ -97,6 +97,8 @@ var c10Corners = []string{
 	"SELECT id, SPINASYNC.HPANIC(a) FROM t",
 	"SELECT id, HPANIC(a) AS e FROM t",
 	// evaluation deferred with AWAIT runs after the rows are built (post-processing): it panics or fails there
+	"SELECT id, ASYNC.HMID(a) AS m, HPANIC(id) AS e FROM t",
+	"SELECT id, ASYNC.HSLOW(a) AS m FROM t WHERE ELEMENTAT(items, id) IS NULL",
 	"SELECT id, AWAIT(HPANIC(a)) AS e FROM t",
 	"SELECT id, AWAIT(HPANICSTR(a)) AS e FROM t",
 	"SELECT id, AWAIT(ELEMENTAT(items, -1)) AS e FROM t",
@@ -479,6 +481,29 @@ func (p *c10) RunCase(i int) *core.CaseResult {
 					outs = []*gq.Out{gq.Run(doc, sql, opts...)}
 					r.Execs++
 				}
+				if sched && c.kind == "corner" {
+					// the same Query object executed three times in a row (the first Exec may fail while calls
+					// it started are still running): no panic may escape, no goroutine may panic
+					var pan string
+					res := vrt.Run(gq.Seq, nil, func() {
+						defer func() {
+							if rec := recover(); rec != nil {
+								pan = fmt.Sprint(rec)
+							}
+						}()
+						q, err := genql.New(p.docs[di](), sql, opts...)
+						if err != nil {
+							return
+						}
+						for k := 0; k < 3; k++ {
+							q.Exec()
+						}
+					})
+					r.Execs += 3
+					if pan != "" || res.GPanic != "" {
+						r.Fail("C10|corner|repeated-exec|"+c10Class(pan+res.GPanic), fmt.Sprintf("%s (options %s, document %d): Exec called three times on one Query: panic %q, goroutine panic %q", sql, optName(m), di, pan, res.GPanic), map[string]any{"sql": sql, "options": optName(m), "doc": p.docs[di]()})
+					}
+				}
 				for _, o := range outs {
 					where := "exec"
 					if o.InNew {
@@ -507,7 +532,7 @@ func (p *c10) RunCase(i int) *core.CaseResult {
 
 func (p *c10) Meta() core.Meta {
 	return core.Meta{
-		Rule:        "corner cases: 174 hand-listed queries (NATURAL JOIN, chained UNION, self- / mutually- / recursively-referencing CTEs, unbalanced brackets under IdiomaticArrays, out-of-range indices in FROM paths, PARALLEL joins and ASYNC / SPIN / SPINASYNC calls whose evaluation fails or panics, DISTINCT over subqueries / back-references plus star, ORDER BY / GROUP BY of objects, SUBSTR / ELEMENTAT out of range, unsupported MySQL syntax families, scalars where arrays are expected) x all 8 option combinations x 3 documents (PARALLEL corners also on a 48-row table with distinct keys), goroutine-bearing ones under every schedule with <= 1 preemption with the race detector as a monitor for unsynchronised map accesses (which are fatal errors, not panics); mutation cases: every single-token mutation (delete, duplicate, replace by / insert each of 54 tokens) of 12 (thorough 24) seed queries covering the supported grammar x 5 option combinations x 2 documents; token cases: every token string of length <= 3 (thorough 4) over a 30-token alphabet x 5 option combinations. Oracle: no panic escapes New / Exec, no library goroutine panics, no deadlock (scheduler), no worker death (stack overflow, fatal error) and no hang (watchdog), each attributed to the journalled sub-case. non-trivial = some query of the case succeeded",
+		Rule:        "corner cases: 176 hand-listed queries (NATURAL JOIN, chained UNION, self- / mutually- / recursively-referencing CTEs, unbalanced brackets under IdiomaticArrays, out-of-range indices in FROM paths, PARALLEL joins and ASYNC / SPIN / SPINASYNC calls whose evaluation fails or panics, DISTINCT over subqueries / back-references plus star, ORDER BY / GROUP BY of objects, SUBSTR / ELEMENTAT out of range, unsupported MySQL syntax families, scalars where arrays are expected) x all 8 option combinations x 3 documents (PARALLEL corners also on a 48-row table with distinct keys), goroutine-bearing ones under every schedule with <= 1 preemption with the race detector as a monitor for unsynchronised map accesses (which are fatal errors, not panics); mutation cases: every single-token mutation (delete, duplicate, replace by / insert each of 54 tokens) of 12 (thorough 24) seed queries covering the supported grammar x 5 option combinations x 2 documents; token cases: every token string of length <= 3 (thorough 4) over a 30-token alphabet x 5 option combinations. Oracle: no panic escapes New / Exec, no library goroutine panics, no deadlock (scheduler), no worker death (stack overflow, fatal error) and no hang (watchdog), each attributed to the journalled sub-case. non-trivial = some query of the case succeeded",
 		Assumptions: []string{"user-registered functions that panic with a value that is not an error are outside the property's quantifier; HPANIC panics with an error value, HPANICSTR with a runtime error", "debug.SetMaxStack(256 MiB) makes runaway recursion fail fast; the watchdog kills a worker without progress for 120 s"},
 		Bounds:      map[string]any{"corners": len(c10Corners), "seeds": len(c10Seeds), "menu": len(c10Menu), "token_alphabet": len(c10TokenAlphabet), "token_length": p.tokLen},
 		Exhaustive:  true,
